@@ -21,6 +21,9 @@ pub struct Case {
     /// present clip names: (index 0..257, name)
     pub clips: Vec<(u16, String)>,
     pub sets: Vec<SetSpec>,
+    /// additionally, this many fully populated sets (256 names each) appended after `sets` (large files: > 65535 strings)
+    #[serde(default)]
+    pub dense: u16,
 }
 
 pub fn to_aset(c: &Case) -> ASetFile {
@@ -40,6 +43,14 @@ pub fn to_aset(c: &Case) -> ASetFile {
             if v[i].is_none() {
                 v[i] = Some(n.clone());
             }
+        }
+        a.sets.push(v);
+    }
+    for d in 0..c.dense as usize {
+        let mut v: Vec<Option<String>> = Vec::with_capacity(257);
+        v.push(if d % 2 == 0 { Some(format!("D{d}")) } else { None });
+        for slot in 0..256 {
+            v.push(Some(format!("n{d}_{slot}")));
         }
         a.sets.push(v);
     }
@@ -78,7 +89,7 @@ impl Prop for C17 {
     fn rule() -> String {
         "An animation-set file (meta None/Some, clip table of exactly 257 optional names, 0..=6 (40 in thorough) sets each with an optional label (never the reserved AnimClipNameTable) and a present/absent pattern over 256 slots: \
          empty, single slot, only bit 31 of a group, dense, alternating groups, random; names Shift-JIS-lossless incl. the empty string) is serialized, parsed with BinArchive::from_bytes + ASetFile::from_archive and compared field by field; \
-         re-serializing the re-read value must give identical bytes; the data size reported by the independent reader must be 12 + 4*257 + sum over sets of 4*(1 + groups present + names present). Bounded-exhaustive: every single slot 0..=255 alone, \
+         re-serializing the re-read value must give identical bytes; the data size reported by the independent reader must be 12 + 4*257 + sum over sets of 4*(1 + groups present + names present). Large files with 255/256/257 fully populated sets (just below and above 65 536 strings). Bounded-exhaustive: every single slot 0..=255 alone, \
          bit 31 alone in each group, and empty / unlabelled sets in every position of a 3-set file. Non-trivial: >= 1 set with >= 1 present slot and >= 1 entirely absent group, or an empty set. Distinct = distinct case value."
             .into()
     }
@@ -98,7 +109,7 @@ impl Prop for C17 {
             prop_oneof![2 => Just(Vec::new()), 3 => proptest::collection::vec((0u16..257, archive_string()), 0..12), 1 => archive_string().prop_map(|n| (0u16..257).map(|i| (i, format!("{n}{i}"))).collect())],
             proptest::collection::vec((label_strategy(), slots_strategy()).prop_map(|(label, slots)| SetSpec { label, slots }), 0..=max_sets),
         )
-            .prop_map(|(meta, clips, sets)| Case { meta, clips, sets })
+            .prop_map(|(meta, clips, sets)| Case { meta, clips, sets, dense: 0 })
             .boxed()
     }
     fn enumerate(_tier: Tier, shard: u64, nshards: u64, f: &mut dyn FnMut(Case) -> bool) {
@@ -109,7 +120,7 @@ impl Prop for C17 {
             !mine || f(c)
         };
         for slot in 0u16..256 {
-            let c = Case { meta: if slot % 2 == 0 { Some("meta".into()) } else { None }, clips: vec![(slot, sjis_pool_string(slot as usize)), (256, "last".into())], sets: vec![SetSpec { label: Some(format!("S{slot}")), slots: vec![(slot, sjis_pool_string(slot as usize + 1))] }] };
+            let c = Case { meta: if slot % 2 == 0 { Some("meta".into()) } else { None }, clips: vec![(slot, sjis_pool_string(slot as usize)), (256, "last".into())], sets: vec![SetSpec { label: Some(format!("S{slot}")), slots: vec![(slot, sjis_pool_string(slot as usize + 1))] }], dense: 0 };
             if !emit(c) {
                 return;
             }
@@ -125,19 +136,27 @@ impl Prop for C17 {
         for a in &variants {
             for b in &variants {
                 for c in &variants {
-                    if !emit(Case { meta: None, clips: vec![], sets: vec![a.clone(), b.clone(), c.clone()] }) {
+                    if !emit(Case { meta: None, clips: vec![], sets: vec![a.clone(), b.clone(), c.clone()], dense: 0 }) {
                         return;
                     }
                 }
             }
-            if !emit(Case { meta: Some("".into()), clips: vec![(0, "".into())], sets: vec![a.clone()] }) {
+            if !emit(Case { meta: Some("".into()), clips: vec![(0, "".into())], sets: vec![a.clone()], dense: 0 }) {
                 return;
             }
         }
-        let _ = emit(Case { meta: None, clips: vec![], sets: vec![] });
+        // large files: around 65535 / 65536 strings (255, 256 and 257 fully populated sets, with and without a meta string)
+        for dense in [255u16, 256, 257] {
+            for meta in [None, Some("m".to_string())] {
+                if !emit(Case { meta, clips: vec![], sets: vec![], dense }) {
+                    return;
+                }
+            }
+        }
+        let _ = emit(Case { meta: None, clips: vec![], sets: vec![], dense: 0 });
     }
     fn exhaustive_note(_tier: Tier) -> Option<String> {
-        Some("each of the 256 slots alone (walks every bit of every group incl. bit 31); 5 set shapes (empty unlabelled, empty labelled, bit-31-only, first+last slot, group boundary) in every position of a 3-set file; the file without sets".into())
+        Some("each of the 256 slots alone (walks every bit of every group incl. bit 31); 5 set shapes (empty unlabelled, empty labelled, bit-31-only, first+last slot, group boundary) in every position of a 3-set file; the file without sets; files with 255 / 256 / 257 fully populated sets (around 65 536 strings)".into())
     }
 
     fn run(case: &Case, cx: &mut Cx) {
